@@ -59,7 +59,9 @@ VARIABLES cid, done
 Check(c) ==
   LET C == BCases[c]
       v == Verdict(C)
-      agree == C.ok = v.ok
+      \* a _onBounds method that does not have the documented signature puts the package outside the property's premise:
+      \* rejecting it with a diagnostic is fine, succeeding is fine only if the result compiles (checked by `builds`)
+      agree == IF C.onbounds = "bad" \/ C.onbounds = "other-grammar" THEN TRUE ELSE C.ok = v.ok
       builds == C.ok => C.built
       flows == (C.ok /\ C.built) => C.marks = C.expmarks      \* every parameter holds the value produced for its term
   IN IF agree /\ builds /\ flows THEN TRUE
